@@ -51,8 +51,75 @@ def learner_fns():
                 p2=Fn('learner_predict2', 'src/learner.cpp', 'predict', flt='learner_t::predict', select=NPARAMS(2), **kw))
 
 
+# ------------------------------------------------------------------------------------------------ linear_t::do_predict
+# assumed contract of flatten_iterator_t::loop(callback) as in linear_spec.LOOP_BODY (C09: once per chunk, the chunks tile [0, #samples));
+# nv_obj = the iterator, outputs = the lambda's capture BY NAME, self = the model; @CALL = the extracted lambda body (inlined)
+DP_LOOP = r'''
+  __CPROVER_assert(nv_obj->scaling == NVE_scaling_type_none, "do_predict: predictions are made from UNSCALED inputs (the stored model is up-scaled)");
+  __CPROVER_assume(nv_e_looped < 1000); nv_e_looped = nv_e_looped + 1;
+  int64_t n = outputs->t->rows, b = 0;
+  uint64_t by = nv_obj->by, wid = self->m_weights.id, bid = self->m_bias.id, oid = outputs->t->id;
+  nv_e_pred = 0;
+  while (b < n)
+  __CPROVER_assigns(b, nv_e_pred, nv_e_pred_w, nv_e_pred_b, nv_e_pred_by, nv_e_pred_out, nv_e_pred_pos, outputs->t->w, outputs->t->b, outputs->t->by)
+  __CPROVER_loop_invariant(0 <= b && b <= n && n == outputs->t->rows && outputs->b == -1 && outputs->row == -1 && oid == outputs->t->id)
+  __CPROVER_loop_invariant((0 <= nv_g && nv_g < b) ? (nv_e_pred == 1 && nv_e_pred_w == wid && nv_e_pred_b == bid && nv_e_pred_by == by && nv_e_pred_pos == nv_g && nv_e_pred_out == oid) : nv_e_pred == 0)
+  __CPROVER_decreases(n - b)
+  {
+    int64_t e = nv_nondet_int64_t(); __CPROVER_assume(b < e && e <= n);
+    struct nv_range r; r.b = b; r.e = e;
+    struct nv_lt in = nv_lt_zero();
+    in.by = nv_obj->by; in.cb = b; in.ce = e; in.rows = e - b; in.id = nv_nondet_uint64_t();
+    uint64_t tnum = nv_nondet_uint64_t();
+    @CALL(r, tnum, in);
+    b = e;
+  }
+'''
+
+
+def linear_predict_fns():
+    import hooks
+    import linear_spec as ls
+    members = [(r'^slice\|nano::tensor_t<nano::tensor_marray_storage_t, double, 4', 'nv_lview_slice4({obj}, {0})')] + ls.LMEMBERS
+    calls = [(r'^ctor\|nano::flatten_iterator_t\|', 'nv_fiter_make({1})')] + ls.LCALLS
+    kw = dict(types=ls.LTYPES, calls=calls, members=members, opaque=ls.LOPAQUE, self_struct='struct nv_linear',
+              hooks=[hooks.param_hook(), hooks.lambda_stub_hook('loop', 'nv_dp_loop', ['linear_do_predict_chunk'], DP_LOOP, member=True)])
+    return [Fn('linear_do_predict', ls.L, 'do_predict', flt='linear_t::do_predict', **kw),
+            Fn('linear_do_predict_chunk', ls.L, 'do_predict', flt='linear_t::do_predict', lambda_index=0, captures=True, **kw)]
+
+
+MF_CLASSES = [('ordinary', 'ordinary_t'), ('lasso', 'lasso_t'), ('ridge', 'ridge_t'), ('elastic_net', 'elastic_net_t')]
+
+
+def make_function_fn(stem, cls):
+    import linear_spec as ls
+    types = [(r'^(::)?(nano::)?linear::function_t$', 'struct nv_lfun2')] + ls.LTYPES
+    calls = [(r'^ctor\|(nano::)?linear::function_t\|', 'nv_lfun2_make({&0}, {2}, {3})'),
+             (r'^operator\(\)\|.*tensor_carray_storage_t, double, 1', 'nv_params_at({0}, {1})')] + ls.LCALLS
+    return Fn(f'{stem}_make_function', f'src/linear/{stem}.cpp', 'make_function', flt=f'{cls}::make_function', self_struct='struct nv_linear',
+              types=types, calls=calls, members=ls.LMEMBERS, opaque=ls.LOPAQUE, ret='struct nv_lfun2')
+
+
+def make_x0_fn():
+    import linear_spec as ls
+    types = [(ls.T1, 'struct nv_xt'), (ls.T2, 'struct nv_xt'), (r'^std::any$', 'struct nv_xany'), (r'^(nano::)?(linear::)?result_t$', 'struct nv_xresult'),
+             (r'^(::)?(nano::)?linear::function_t$', 'struct nv_xfun'), (r'^nano::vector_t$|^Eigen::Matrix<double, -1, 1', 'struct nv_x0'),
+             (r'^nano::tensor_t<nano::tensor_vector_storage_t, double, 1', 'struct nv_x0')]
+    calls = [(r'^zero\|', 'nv_x0_zero({0})'), (r'^ctor\|nano::tensor_t<nano::tensor_vector_storage_t, double, 1>\|void \(const Eigen::CwiseNullaryOp', '{0}'), (r'^any_cast\|', '(*nv_xany_cast({&0}))'),
+             (r'^operator=\|.*(VectorBlock|Block<)', 'nv_seg_assign({0}, {1})')]
+    members = [(r'^size\|(const )?(::)?(nano::)?(linear::)?function_t', 'nv_xfun_size'), (r'^has_value\|', 'nv_xany_has'),
+               (r'^size\|', 'nv_xt_size'), (r'^array\|', 'nv_xt_array'), (r'^segment\|', 'nv_x0_segment({self}, {0}, {1})')]
+    return Fn('linear_make_x0', 'src/linear.cpp', 'make_x0', flt='make_x0', types=types, calls=calls, members=members, ret='struct nv_x0')
+
+
 def targets(tier):
     P = 'specs/C11/predict.h'
-    return [Target('gmodel_do_predict', lambda: [gboost_predict_fn()], P, enforce='gmodel_do_predict'),
+    LP = 'specs/C11/linear_predict.h'
+    EN = [('src/linear.cpp', 'nano::scaling_type')]
+    lin = [Target('linear_do_predict', linear_predict_fns, LP, enforce='linear_do_predict', enums=EN, loops=1),
+           Target('linear_make_x0', lambda: [make_x0_fn()], LP, enforce='linear_make_x0', enums=EN)]
+    lin += [Target(f'{stem}_make_function', (lambda stem=stem, cls=cls: [make_function_fn(stem, cls)]), LP, enforce=f'{stem}_make_function', enums=EN)
+            for stem, cls in MF_CLASSES]
+    return lin + [Target('gmodel_do_predict', lambda: [gboost_predict_fn()], P, enforce='gmodel_do_predict'),
             Target('learner_predict3', lambda: [learner_fns()['p3']], P, enforce='learner_predict3'),
             Target('learner_predict2', lambda: [learner_fns()['p2'], learner_fns()['p3']], P, enforce='learner_predict2', replace=['learner_predict3'])]
